@@ -44,6 +44,10 @@ N = {"quick": {"models": 600, "utils": 500, "drf": 24}, "thorough": {"models": 6
 
 
 def gen(tier, seed, shard, nshards):
+    if tier == "thorough":
+        for m, module in enumerate(['test_utils.py', 'test_lganm.py', 'test_normal_distribution.py', 'test_anm.py', 'test_generators.py', 'test_api.py']):
+            if m % nshards == shard:
+                yield "repo-tests", {"module": module}
     cfg = N[tier]
     for k in range(cfg["models"]):
         if k % nshards == shard:
@@ -150,10 +154,13 @@ def _judge_model(kind, case, rec, family):
         first = model.sample(population=True)
         first_copy = (np.array(first.mean, copy=True), np.array(first.covariance, copy=True))
         n_iv = 0
+        last_kw = None
         for _ in range(steps):
             c = int(rng.integers(0, 4))
             kw = {"do_interventions": _iv(rng, p), "shift_interventions": _iv(rng, p), "noise_interventions": _iv(rng, p)}
             n_iv += any(kw.values())
+            if any(kw.values()) and c == 0:
+                last_kw = kw
             try:
                 if c == 0:
                     r = model.sample(int(rng.integers(0, 8)), random_state=None if rng.random() < 0.5 else int(rng.integers(100)), **kw)
@@ -186,6 +193,20 @@ def _judge_model(kind, case, rec, family):
         a, b = model.sample(6, random_state=3), twin.sample(6, random_state=3)
         if not np.array_equal(a, b):
             rec.violation("C14:lganm-seeded-sample-differs-from-twin", family, case, "seeded sample differs from a fresh twin's after the history")
+        # results do not depend on earlier calls: re-issue an earlier kind of call (same targets, same n and seed) with OTHER
+        # parameter values, first on the used model, then on the twin
+        if last_kw is not None:
+            def other(d):
+                return {j: ((v[0] + 1.25, v[1] * 0.5 + 0.125) if isinstance(v, tuple) else v - 0.75) for j, v in d.items()}
+            kw1 = dict((k, dict(v)) for k, v in last_kw.items())
+            kw2 = dict((k, other(v)) for k, v in last_kw.items())
+            r1 = model.sample(4, random_state=11, **kw1)
+            r2 = model.sample(4, random_state=11, **kw2)
+            t2 = twin.sample(4, random_state=11, **kw2)
+            rec.count("history:same-targets-other-parameters")
+            if not np.array_equal(r2, t2):
+                rec.violation("C14:lganm-result-depends-on-earlier-call", family, case,
+                              "sample(4, random_state=11) with the same intervention targets as an earlier call but other parameters differs from a fresh twin's result")
         for name, orig in (("W", W0), ("means", m0), ("variances", v0)):
             if not np.array_equal(np.asarray(getattr(model, name)), orig) or model.p != p:
                 rec.violation("C14:lganm-attribute-changed", family, case, "attribute %s differs from the constructor argument" % name)
@@ -342,6 +363,10 @@ def _utils_workload(U, gens, rng, rec):
 
 
 def judge(family, case, rec):
+    if family == "repo-tests":
+        from ..workloads import repotests
+        repotests.run(rec, case["module"])
+        return
     import sempler
     import sempler.utils as U
     import sempler.generators as gens
